@@ -623,6 +623,7 @@ int main_driver(int argc, char** argv) {
     std::string r2 = replay_once(*h, ch, opt, false);
     std::printf("REPLAY1 %s\nREPLAY2 %s\n", r1.c_str(), r2.c_str());
     if (r1 != r2) { std::printf("REPLAY nondeterministic\n"); return 2; }
+    if (r1.find("key=replay-divergence") != std::string::npos) { std::printf("REPLAY does not apply to this build (the schedule diverges from its recorded prefix)\n"); return 2; }
     return r1[0] == 'F' ? 1 : 0;
   }
   std::fprintf(stderr, "usage: --list | --run NAME [...] | --replay NAME --choices a,b,c\n");
